@@ -128,6 +128,111 @@ class Sentinel:
         return len(self.s)
 
 
+class Boom:
+    """user code inside a template: printing it raises (a variable whose __str__, a filter or a tag raises)"""
+
+    def __init__(self, c):
+        self.c = c
+
+    def __str__(self):
+        raise tplgen.make_fault(self.c)
+
+
+def run_body_faults(chk, n):
+    """(real code; the oracle is the property's own clauses) user code raising *inside the body of a {% component %} tag*
+    — while the library reads the body to find the fills, or while it renders the implicit default content — on a page
+    rendered with a Context the caller keeps: the exception class survives, the caller's Context has the layers it had,
+    the registries are empty, the same failing render fails the same way again, and a later fault-free render *through the
+    same Context object* gives what a fresh Context gives (seeded/C06-4: the fill-discovery marker layer stayed on the
+    caller's Context)."""
+    from django.template import Context, Template
+    lit, var = tplgen.lit, tplgen.var
+    for i in range(n):
+        r = core.rng(PROP, "body-faults", i)
+        g = tplgen.Gen(core.rng(PROP, "body-programs", i), dict(PROFILE, w_provide=0, w_inject=0.0, p_side=0.0))
+        p = g.program()
+        c = r.randrange(4)
+        name = p["lib"][0]["name"]
+        boom = {"t": "out", "e": var("boom")}
+        fill = {"t": "fill", "name": lit(r.choice(tplgen.SLOTS)), "data": None, "dflt": None, "body": [{"t": "text", "s": "F"}]}
+        shape = r.choice(["before-fills", "between-fills", "in-loop", "implicit-default", "in-if"])
+        if shape == "before-fills":
+            body = [boom, fill]
+        elif shape == "between-fills":
+            body = [fill, boom, dict(fill, name=lit("default"))]
+        elif shape == "in-loop":
+            body = [{"t": "for", "x": "v", "e": var("sl"), "body": [dict(fill, name=var("v")), {"t": "if", "c": var("boomif"), "a": [boom], "b": []}]}]
+        elif shape == "in-if":
+            body = [{"t": "if", "c": var("one"), "a": [boom, fill], "b": []}]
+        else:
+            body = [{"t": "text", "s": "X"}, boom, {"t": "text", "s": "Y"}]
+        tag = {"t": "comp", "name": name, "kwargs": [], "only": r.random() < 0.2, "dyn": False, "body": body}
+        good = dict(tag, body=[fill] if shape != "implicit-default" else [{"t": "text", "s": "XY"}])
+        wrap = r.choice(["plain", "with", "for"])
+        def page_of(t):
+            if wrap == "with":
+                return [{"t": "with", "x": "v", "e": lit("W"), "body": [t]}]
+            if wrap == "for":
+                return [{"t": "for", "x": "u", "e": var("one"), "body": [t]}]
+            return [t]
+        chk.branch(["body-fault:" + shape, "body-fault-wrap:" + wrap, "fault_class:%d" % c])
+        tplgen.patch_ids()
+        tplgen.clear_census()
+        tplgen.set_mode(p["isolated"])
+        rec = tplgen.Recorder(None)
+        built = tplgen.Built(p, rec)
+        try:
+            vals = {k: tplgen.pyval(v) for k, v in p["ctx"]}
+            vals.update(boom=Boom(c), boomif="y")
+            bad_t, good_t = Template(tplgen.p_nodes(page_of(tag))), Template(tplgen.p_nodes(page_of(good)))
+
+            def attempt(t, ctx):
+                rec.gcds = 0
+                try:
+                    with core.time_limit(20.0):
+                        return None, tplgen.canon_real(str(t.render(ctx)), built.hash2name)
+                except Exception as e:  # noqa
+                    return tplgen.err_enum(e), None
+            ref_err, ref_out = attempt(good_t, Context(dict(vals)))
+            if ref_err is not None:
+                chk.errkind("body-ref:" + ref_err)
+                continue
+            tplgen.clear_census()
+            ctx = Context(dict(vals))
+            before = [dict(d) for d in ctx.dicts]
+            rc_before = len(ctx.render_context.dicts)
+            err1, _ = attempt(bad_t, ctx)
+            chk.count("body-faults", 1, validated=1)
+            chk.nontrivial(("body-faults", i, shape, c))
+            problems = []
+            if err1 != "User:%d" % c:
+                problems.append("exception class replaced: expected fault %d, got %s" % (c, err1))
+            if [dict(d) for d in ctx.dicts] != before:
+                problems.append("caller's Context.dicts changed by the failed render: %d layers before, %d after" % (len(before), len(ctx.dicts)))
+            residue = tplgen.census()
+            err2, _ = attempt(bad_t, ctx)
+            if err2 != err1:
+                problems.append("repeating the failing render through the same Context: %s, then %s" % (err1, err2))
+            err3, out3 = attempt(good_t, ctx)
+            if (err3, out3) != (None, ref_out):
+                problems.append("a later fault-free render through the same Context differs from a fresh one: %r vs %r" % (err3 or out3[:120], ref_out[:120]))
+            rc_left = len(ctx.render_context.dicts) != rc_before
+            if problems or residue != ZERO:
+                if not problems and residue != ZERO:
+                    problems.append("registries after the failed render: %s" % residue)
+                chk.violation("impl-violates-spec", "body-faults",
+                              {"program": p, "page": tplgen.p_nodes(page_of(tag)), "fault_class": c, "shape": shape},
+                              impl={"first": err1, "second": err2, "third": err3 or out3, "reference": ref_out, "residue": residue,
+                                    "layers": [len(before), len(ctx.dicts)]},
+                              spec="C06: the original exception propagates; nothing of the failed render stays on the caller's Context; later renders behave as if it had never happened",
+                              note="; ".join(problems) + " || PAGE " + tplgen.p_nodes(page_of(tag)) + " || " + " || ".join(rc.describe(p)))
+            elif rc_left:
+                chk.known_hit("failed-render-leaves-render-context-layer", {"page": tplgen.p_nodes(page_of(tag))})
+        finally:
+            built.close()
+            tplgen.clear_census()
+
+
 def run_memory(chk, n):
     from django.template import Context, Template
     for i in range(n):
@@ -187,13 +292,16 @@ def run(tier: str) -> int:
     core.django_setup()
     if tier == "quick":
         run_faults(chk, 150, 6)
+        run_body_faults(chk, 60)
         run_memory(chk, 12)
     else:
         run_faults(chk, 1500, None)
+        run_body_faults(chk, 800)
         run_memory(chk, 100)
     chk.assumptions += [
         "user-code points: get_context_data, inject, on_render_before, on_render_after of generated components "
-        "(slot functions and custom tags/filters are not generated)",
+        "(slot functions are not generated; template-level user code is a variable whose __str__ raises, placed in the body of a "
+        "page-level component tag — stream body-faults, real code against the property's clauses, no model run)",
         "unreachability and memory growth are runtime facts observed with weakref / gc on the real code only",
     ]
     return chk.finish()
